@@ -79,6 +79,7 @@ type Exec struct {
 	curEffFn  *ssa.Function
 	freshRefs map[int]bool
 	immutable map[string]bool
+	cbPrivate []string
 	refAxQ    map[string]bool
 	ptrTab    map[int]*PtrInfo // pointer value (term id) -> what it points to
 	boxEsc    bool // a captured local (box) may have become reachable by other code
